@@ -7,6 +7,7 @@ import (
 	"math/rand"
 	"sort"
 	"strings"
+	"time"
 
 	nject "github.com/muir/nject/v2"
 )
@@ -453,6 +454,47 @@ func runDebugPair(c *CaseDesc) []string {
 			out = append(out, "pair dbgie same")
 		} else {
 			out = append(out, fmt.Sprintf("pair dbgie diff reported=%s bound=included=%d,excluded=%d,total=%d", strings.ReplaceAll(ie, " ", ","), nInc, nExc, total))
+		}
+	}
+	// the same, with the collection bound a second time to another signature (no invoke arguments: whatever depends on
+	// them cannot be included there) BEFORE the first chain is used: the first chain's Debugging must describe the first chain
+	{
+		afterBindHook = func(coll *nject.Collection) {
+			var other func()
+			guarded(10*time.Second, func() { _ = coll.Bind(&other, nil) })
+		}
+		v2 := runCase(c2.clone())
+		afterBindHook = nil
+		var names2 string
+		var want2 []string
+		inS7 := false
+		for _, l := range v2 {
+			switch {
+			case strings.HasPrefix(l, "dump "):
+				inS7 = strings.HasPrefix(l, "dump S7 ")
+			case strings.HasPrefix(l, "f ") && inS7:
+				kv := pKV(strings.Fields(l))
+				if kv["inc"] == "1" {
+					origin := kv["origin"]
+					if origin == "-" {
+						origin = ""
+					}
+					if kv["index"] != "-1" {
+						want2 = append(want2, origin+"("+kv["index"]+")")
+					} else {
+						want2 = append(want2, origin)
+					}
+				}
+			case strings.HasPrefix(l, "d names ") && names2 == "":
+				names2 = strings.TrimPrefix(l, "d names ")
+			}
+		}
+		if names2 != "" {
+			if names2 == strings.Join(want2, "|") {
+				out = append(out, "pair dbgnames-rebound same")
+			} else {
+				out = append(out, "pair dbgnames-rebound diff reported="+names2+" bound="+strings.Join(want2, "|"))
+			}
 		}
 	}
 	return append(out, "end")
